@@ -1,10 +1,66 @@
 import Dmn.Model.Sexp
+import Dmn.Model.Eval
+import Dmn.Driver.Codec
 
-/-! Driver handler for C01 — not implemented yet. -/
+/-! Driver handler for C01 / C13: `(c01 eval <fuel> <ast> (<ctx>…))` — the scope is the list of
+its contexts, bottom first. -/
 
 namespace Dmn.Driver.C01
-open Dmn
+open Dmn Dmn.Codec
 
-def handle (_args : List Sexp) : String := "(error not-implemented)"
+def bifPosStub (_ : String) (_ : List Value) : Outcome Value := .ok Value.unsupported
+def bifNamedStub (_ : String) (_ : List (String × Value × Nat)) : Outcome Value := .ok Value.unsupported
+
+partial def hasUnsupported : Value → Bool
+  | .bif "«unsupported»" => true
+  | .list vs => vs.any hasUnsupported
+  | .ctx es => es.any (fun e => hasUnsupported e.2)
+  | .range lo _ hi _ => hasUnsupported lo || hasUnsupported hi
+  | .unaryLt v | .unaryLe v | .unaryGt v | .unaryGe v => hasUnsupported v
+  | .exprList vs | .negList vs => vs.any hasUnsupported
+  | _ => false
+
+def ctxOfSexp (x : Sexp) : Option Ctx :=
+  match valueOfSexp x with
+  | some (.ctx es) => some es
+  | _ => none
+
+def scopeStr (s : Scope) : String :=
+  toString (Sexp.list (s.map (fun c => sexpOfValue (.ctx c))))
+
+def render (s : Scope) (o : Outcome (Value × Scope)) : String :=
+  match o with
+  | .ok (v, s') =>
+    if hasUnsupported v then "(unsupported)"
+    else
+      let same := if scopeStr s' == scopeStr s then "same" else "changed"
+      s!"(ok {sexpOfValue v} {same})"
+  | .panic site => s!"(panic {Sexp.ofStr site})"
+  | .diverge => "(diverge)"
+
+/-- answer: `(<model> <spec>)` -/
+def runEval (fuel : Nat) (a : Ast) (s : Scope) : String :=
+  if !Eval.buildOk a then "((builderror) (builderror))"
+  else
+    let m := render s (Eval.eval NumOps.exact bifPosStub bifNamedStub fuel a s)
+    let d := render s (Eval.den NumOps.exact bifPosStub bifNamedStub fuel a s)
+    if m == d then s!"({m} {d})"
+    else
+      -- which of the three deviations is responsible (for the signature of a finding)
+      let v1 := render s (Eval.evalWith Eval.Variant.declaredOrder NumOps.exact bifPosStub bifNamedStub fuel a s)
+      let v2 := render s (Eval.evalWith Eval.Variant.productOnly NumOps.exact bifPosStub bifNamedStub fuel a s)
+      let v1b := render s (Eval.evalWith Eval.Variant.productOuterWins NumOps.exact bifPosStub bifNamedStub fuel a s)
+      let why := (if m != v1 then "order " else "") ++ (if v1 != v1b then "empty-domain " else "") ++
+        (if v1b != v2 then "shadowing " else "") ++ (if v2 != d then "index" else "")
+      s!"({m} {d} ({why}))"
+
+def handle (args : List Sexp) : String :=
+  match args with
+  | [.atom "eval", fuel, a, .list ctxs] =>
+    match Sexp.nat? fuel, astOfSexp a, ctxs.mapM ctxOfSexp with
+    | some fuel, some a, some s => runEval fuel a s
+    | _, none, _ => "(error bad-ast)"
+    | _, _, _ => "(error bad-args)"
+  | _ => "(error bad-request)"
 
 end Dmn.Driver.C01
